@@ -1,4 +1,5 @@
 """C16 (all lattice obligations) and C03 (the join_mut / change-flag subset the lattice fixpoint rests on)."""
+import os
 import re
 
 from . import common, kani, unit_lattice
@@ -182,6 +183,8 @@ def run(pid, tier):
         'Rc/Arc/Box/Reverse, ConstPropagation::{join_mut,meet_mut}, Product<[T;N]>: decided by Kani for the listed instantiations only (N <= 4)',
         'termination of the lattice operations is checked by Verus only for the functions it verifies',
     ]
+    if tier == 'thorough' and not out.violations:
+        out.coverage['proof_stability_under_smt_seeds'] = {os.path.basename(u['path']): common.stability_sweep(u['path']) for u in (v, sv)}
     if c03 and lat_idx_cov:
         out.coverage['lattice_index_idempotent_reinsertion'] = lat_idx_cov
     if c03:
